@@ -276,6 +276,32 @@ fn judge_foreign(bytes: &[u8], operated: bool) -> Result<Vec<(String, String)>, 
     Ok(v)
 }
 
+/// One builder, `2 + k % 4` destinations, all read from the one path `staging`, which is rewritten (and its
+/// modification time set) before every with_file() call. Returns the bytes of the written package.
+fn staged_build(staging: &std::path::Path, k: u64, mtime0: i64) -> Result<Vec<u8>, String> {
+    let nfiles = 2 + (k % 4) as usize;
+    let same_len = k % 2 == 0;
+    let pin_mtime = k % 4 < 3;
+    let len0 = [0usize, 1, 32, 4096, 70_000][(k / 4) as usize % 5];
+    let mut b = rpm::PackageBuilder::new("staged", "1", "MIT", "noarch", "one staging path").compression([rpm::CompressionType::None, rpm::CompressionType::Gzip, rpm::CompressionType::Zstd][k as usize % 3]);
+    for j in 0..nfiles {
+        let len = if same_len { len0 } else { len0 + j * 7 };
+        // the third file repeats the content of the first
+        let fill = if j == 2 { 0 } else { j as u8 + 1 };
+        let content: Vec<u8> = (0..len).map(|x| (x as u8).wrapping_mul(31).wrapping_add(fill.wrapping_mul(97))).collect();
+        std::fs::write(staging, &content).map_err(|e| format!("harness: {e}"))?;
+        let t = if pin_mtime { mtime0 } else { mtime0 + j as i64 };
+        let ts = [libc::timespec { tv_sec: t, tv_nsec: 0 }, libc::timespec { tv_sec: t, tv_nsec: 0 }];
+        let c = std::ffi::CString::new(staging.to_string_lossy().as_bytes()).unwrap();
+        if unsafe { libc::utimensat(libc::AT_FDCWD, c.as_ptr(), ts.as_ptr(), 0) } != 0 {
+            return Err("harness: utimensat failed".into());
+        }
+        b = b.with_file(staging, rpm::FileOptions::new(format!("/opt/staged/f{j}.bin")).mode(rpm::FileMode::regular(0o644))).map_err(|e| format!("with_file: {e}"))?;
+    }
+    let p = b.build().map_err(|e| format!("build: {e}"))?;
+    pkg_bytes(&p).map_err(|e| format!("write: {e}"))
+}
+
 fn run(ctx: &Ctx, rep: &Report) {
     let keys = match load_keys(&ctx.repo_dir) {
         Ok(k) => k,
@@ -361,6 +387,42 @@ fn run(ctx: &Ctx, rep: &Report) {
                 },
                 Ok(Err(_)) => rep.count("odd_sources.refused", 1),
                 Err(p) => rep.violation(format!("panic:{}", p.site()), format!("building from {} panics: {}", src.display(), p.message), json!({"label": "odd-source"}), 0),
+            }
+        }
+        let _ = std::fs::remove_dir_all(&dir);
+    }
+    // ONE staging path given to with_file() for several destinations of one builder, rewritten between
+    // the calls: same length or not, modification time pinned to one instant or moving, content coming
+    // back to an earlier one. Whatever the archive holds for each destination must match its recorded
+    // digest (seeded change C08-s: digests remembered per (source path, length, mtime))
+    {
+        let dir = ctx.work_dir("staging");
+        let staging = dir.join("staging.bin");
+        let mut rng = Rng::for_case(ctx.seed, "C08-staging", 0);
+        let rounds = ctx.tier.pick(24, 400);
+        for k in 0..rounds {
+            let nfiles = 2 + (k % 4) as usize;
+            let same_len = k % 2 == 0;
+            let pin_mtime = k % 4 < 3;
+            let mtime0 = 1_500_000_000 + rng.below(100_000_000) as i64;
+            rep.eval(1);
+            let r = guard(|| staged_build(&staging, k, mtime0));
+            let w = json!({"label": "staging-path", "round": k, "mtime0": mtime0});
+            match r {
+                Ok(Ok(bytes)) => match guard(|| judge_bytes(&bytes, None)) {
+                    Ok(Ok(ms)) => {
+                        rep.nontrivial(hash_bytes(&bytes[..bytes.len().min(4096)]) ^ 0x57a9 ^ k);
+                        rep.count("staging_path.judged", 1);
+                        for (key, what) in ms {
+                            rep.violation(format!("{key}:staging-path"), format!("one source path rewritten between with_file() calls ({nfiles} files, same length: {same_len}, same mtime: {pin_mtime}): {what}"), w.clone(), 0);
+                        }
+                    }
+                    Ok(Err(e)) => rep.violation(format!("emitted-package-unreadable:{}", crate::util::par::normalize_msg(&e)), format!("staging path: {e}"), w.clone(), 0),
+                    Err(p) => rep.inconclusive(format!("oracle panicked: {}", p.message)),
+                },
+                Ok(Err(e)) if e.starts_with("harness:") => rep.inconclusive(format!("staging-path schedule: {e}")),
+                Ok(Err(e)) => rep.violation(format!("emit-error:staging-path:{}", crate::util::par::normalize_msg(&e)), format!("a valid sequence of with_file() calls fails: {e}"), w.clone(), 0),
+                Err(p) => rep.violation(format!("panic:{}", p.site()), format!("building from a rewritten staging path panics: {}", p.message), w.clone(), 0),
             }
         }
         let _ = std::fs::remove_dir_all(&dir);
@@ -453,6 +515,22 @@ fn run(ctx: &Ctx, rep: &Report) {
 }
 
 fn replay(ctx: &Ctx, w: &serde_json::Value, rep: &Report) {
+    if w["label"].as_str() == Some("staging-path") {
+        let dir = ctx.work_dir("replay-staging");
+        let r = staged_build(&dir.join("staging.bin"), w["round"].as_u64().unwrap_or(0), w["mtime0"].as_i64().unwrap_or(1_600_000_000));
+        match r.and_then(|bytes| judge_bytes(&bytes, None)) {
+            Ok(ms) => {
+                println!("monitor: staging path: {} mismatching digest(s)", ms.len());
+                for (k, what) in ms {
+                    println!("  {k}: {what}");
+                    rep.violation(format!("{k}:staging-path"), what, w.clone(), 0);
+                }
+            }
+            Err(e) => println!("monitor: staging path: {e}"),
+        }
+        let _ = std::fs::remove_dir_all(&dir);
+        return;
+    }
     let Ok(cfg) = serde_json::from_value::<BuildCfg>(w["cfg"].clone()) else { return };
     let keys = load_keys(&ctx.repo_dir).unwrap_or_default();
     let dir = ctx.work_dir("replay");
